@@ -5,6 +5,9 @@ mod core_ops;
 mod dval;
 mod gen;
 mod generated;
+mod generated_schema;
+mod ops_c14;
+mod record;
 mod ops_maxsize;
 mod samples;
 mod guard;
@@ -48,6 +51,9 @@ fn eval_line(ctx: &mut Ctx, line: &str) -> String {
     if let Some(a) = ops_codec::eval(ctx, &op, args) {
         return a;
     }
+    if let Some(a) = ops_c14::eval(ctx, &op, args) {
+        return a;
+    }
     if let Some(a) = ops_io::eval(ctx, &op, args) {
         return a;
     }
@@ -89,6 +95,7 @@ fn main() {
                 "C15" => ops_schema::gen_c15(&mut r, thorough, &mut out),
                 "C19" => ops_schema::gen_c19(&mut r, thorough, &mut out),
                 "C11" => ops_io::gen_c11(&mut r, thorough, &mut out),
+                "C14" => ops_c14::gen_c14(&mut r, thorough, &mut out),
                 "C12" => ops_maxsize::gen_c12(&mut r, thorough, &mut out),
                 "C13" => ops_maxsize::gen_c13(&mut r, thorough, &mut out),
                 "C04" => ops_c04::gen_c04(&mut r, thorough, &mut out),
